@@ -2,3 +2,7 @@ package main
 
 func checkC09Glue(c *Ctx, r *Report)        {}
 func asmPositiveControls(c *Ctx, r *Report) {}
+
+func c16More(c *Ctx, r *Report, p *Prog, f *Folder, P, N interface{}) {}
+
+func c15More(c *Ctx, r *Report, p *Prog, f *Folder) {}
